@@ -224,10 +224,22 @@ func cmdWire(args []string) {
 			{"echo", nil, func(k string) []string { return nil }, bulk},
 			{"ping-msg", nil, func(k string) []string { return nil }, bulk},
 		}
+		// reply lengths around every multiple of 1 KiB up to 9 KiB (the reply writer works in 1 KiB chunks,
+		// the connection reader in 8 KiB segments): values of every length from k*1024-14 to k*1024+3
+		sweepFrom := len(vals)
+		for k := 1; k <= 9; k++ {
+			for d := -14; d <= 3; d++ {
+				vals = append(vals, strings.Repeat("s", k*1024+d))
+			}
+		}
+		sweepPaths := map[string]bool{"set/get": true, "echo": true, "rpush/lrange": true, "hset/hgetall": true}
 		for vi, v := range vals {
 			// values the server re-types (numerals) are not in this list; the empty string cannot be a
 			// set/zset member or list element problem - it is a legal bulk string everywhere
 			for pi, p := range paths {
+				if vi >= sweepFrom && !sweepPaths[p.name] {
+					continue
+				}
 				k := fmt.Sprintf("bk%d_%d", vi, pi)
 				var rep Reply
 				if p.write != nil {
